@@ -165,7 +165,8 @@ class Mon:
         if exp.get("raises"):
             self.rec.count("error_contract_cases")
             if not isinstance(c.exc, exp["raises"]) or (exp["raises"] is ValueError and isinstance(c.exc, OSError)):
-                self.v("%s: got %r, documented %s" % (info["what"], c.exc if c.exc is not None else "a result", exp["raises"].__name__), check="error_type", **info)
+                self.v("%s: got %r, documented %s" % (info["what"], c.exc if c.exc is not None else "a result", exp["raises"].__name__), check="error_type",
+                       **{k: v for k, v in info.items() if k != "what"})
             return
         self.rec.count("roundtrips_" + info["kind"])
         self.rec.count("access_" + info["access"])
@@ -321,6 +322,13 @@ def error_contract(mon, rec, rng, d, U):
     cases.append((f2, {"force_as": "nope"}, ValueError, "stream with unknown force_as"))
     cases.append((p + ".npy", {"force_as": "mp7"}, ValueError, "path with unknown force_as"))
     cases.append((io.BytesIO(b"abc"), {"force_as": "kaldi"}, ValueError, "stream with a kaldi type"))
+    # unknown values that are falsy or differ from a known one only in case / white space
+    for bad in ("", " ", "NPY", "npy ", "Wav"):
+        cases.append((p + ".npy", {"force_as": bad}, ValueError, "path with unknown force_as %r" % bad))
+        cases.append((io.BytesIO(open(p + ".npy", "rb").read()), {"force_as": bad}, ValueError, "stream with unknown force_as %r" % bad))
+    q2 = os.path.join(d, "file.dat")
+    shutil.copy(p + ".npy", q2)
+    cases.append((q2, {"force_as": ""}, ValueError, "unrecognised suffix with unknown force_as ''"))
     for target, kw, exc, what in cases:
         mon.register(target, raises=exc, info=dict(what=what))
         try:
